@@ -949,8 +949,16 @@ class Evaluator:
                 if by_mut:
                     pl = hir.peel(first)
                     if hir.place_str(pl) is None:
-                        raise Unrecognised(f"{cal} mutates a temporary")
+                        # `obj.set_a(x).set_b(y)`: the receiver is the `&mut Self` an earlier call on a place returned
+                        origin = getattr(self, "_mutref", {}).get(repr(args[0]))
+                        if origin is None:
+                            raise Unrecognised(f"{cal} mutates a temporary")
+                        pl = origin
                     self._store(pl, v, env)
+                    if str(e.get("ty", "")).startswith("&mut"):
+                        if not hasattr(self, "_mutref"):
+                            self._mutref = {}
+                        self._mutref[repr(v)] = pl
                 return v
         raise Unrecognised(f"call to {cal}")
 
